@@ -23,15 +23,18 @@ def run_case(c, style):
     tab = Tableau(c['logic'])
     b = tab.branch()
     A = Atomic(0, 0)
-    for w in c['worlds']:
-        b.append(dict(style, sentence=A, world=w))
+    if not c.get('bare'):
+        for w in c['worlds']:
+            b.append(dict(style, sentence=A, world=w))
     for w1, w2 in c['access']:
         b.append({'world1': w1, 'world2': w2})
+    if c.get('split'):
+        b.append(dict(style, sentence=Atomic(1, 0) | Atomic(2, 0), world=0))
     tab.emit(Tableau.Events.AFTER_TRUNK_BUILD, tab)
     tab.build()
-    res = sorted({(n['world1'], n['world2']) for br in tab for n in br if n.get('world1') is not None})
+    results = [[list(p) for p in sorted({(n['world1'], n['world2']) for n in br if n.get('world1') is not None})] for br in tab]
     flags = sum(1 for br in tab for n in br if n.get('flag') is not None)
-    return dict(result=[list(p) for p in res], nbranches=len(tab), closed=int(len(tab.open) == 0),
+    return dict(results=results, nbranches=len(tab), closed=int(len(tab.open) == 0),
                 flags=flags, steps=len(tab.history))
 
 
@@ -49,7 +52,7 @@ def main(cases, out, shard, nshards):
                     styles[c['logic']] = premise_style(c['logic'])
                 c.update(run_case(c, styles[c['logic']]), err='')
             except Exception as e:
-                c.update(result=[], nbranches=0, closed=0, flags=0, steps=0, err=f'{type(e).__name__}: {e}'[:200])
+                c.update(results=[], nbranches=0, closed=0, flags=0, steps=0, err=f'{type(e).__name__}: {e}'[:200])
             o.write(json.dumps(c) + '\n')
 
 
